@@ -552,6 +552,36 @@ def unfinished_prefix_clip(ctx, rule):
                                 alts = U.flatten_phi(q)
                                 if len(alts) == 2 and sum(1 for a in alts if U.expr_calls(a, "cmp::min") or U.expr_calls(a, "Ord::min")) == 1:
                                     ok = True
+            # ... and the clip is min(query length + 1, record length), the query side being the whole query word
+            from .. import bounds as B_
+            bound_ok, q_whole = None, None
+            for e in exprs:
+                for p in S.walk(e):
+                    if isinstance(p, tuple) and p and p[0] == "call" and p[1].endswith(("cmp::min", "Ord::min")) and len(p[2]) == 2:
+                        forms = []
+                        for a_ in p[2]:
+                            la = B_.lin(a_)
+                            wl = [k_ for k_ in la.co if isinstance(k_, tuple) and k_ and k_[0] == "call" and k_[1].endswith(("Word::len", "::len"))]
+                            forms.append((la.c, len(la.co), [S.show(k_, g.body) for k_ in la.co]))
+                        # one operand is `len + 1`, the other a plain `len`; both lengths are word lengths (not stems)
+                        cs = sorted(f_[0] for f_ in forms)
+                        plain = all(f_[1] == 1 and ("len" in f_[2][0]) and ("stem" not in f_[2][0]) for f_ in forms)
+                        bound_ok = (cs == [0, 1] and plain) if bound_ok is None else (bound_ok and cs == [0, 1] and plain)
+                    if isinstance(p, tuple) and p and p[0] == "call" and p[1].endswith("rel_dist") and len(p[2]) >= 3:
+                        qs = [a_ for a_ in p[2][1:] if "qword" in S.show(a_, g.body) or "arg" in str(a_)]
+                        for a_ in p[2][1:]:
+                            a1 = S.strip_refs(a_)
+                            if a1[0] == "call" and a1[1].endswith("::chars") and not U.expr_calls(a1, "Index::index"):
+                                q_whole = True
+            if ok and bound_ok is False:
+                ok = False
+                ctx.fail(rule, key, where(g.body, g.bi), "the record side of the Jaccard gate is clipped to something other than "
+                         "min(query length + 1, record length)", {"witness": "English 'axting' (typo inside the stem) no longer finds 'acting'"})
+                continue
+            if ok and q_whole is not True:
+                ctx.fail(rule, key, where(g.body, g.bi), "the query side of the Jaccard gate is not the whole query word",
+                         {"witness": "English 'axting' (typo inside the stem) no longer finds 'acting'"})
+                continue
             if ok:
                 ctx.ok(rule, key, where(g.body, g.bi), "the Jaccard gate compares the query with a record prefix of at most "
                        "query length + 1 on the unfinished branch", nontrivial=True)
